@@ -433,8 +433,6 @@ def run(chk):
                       kde_conditional_mutual_information(Xa, Ya, Za, bandwidth=bw))
             ref = kde_reference(which, Xf, Yf, Zf, bw)
             hist.append((bw, v))
-            if os.environ.get("C11_DEBUG") and t % 4 == 0:
-                print("DEBUG", t, which, Xa.dtype, Ya.dtype, Za.dtype, bw, v, ref, file=sys.stderr)
             chk.case(key=("kdef", W_.tobytes(), str(bw), which, len(hist)), nontrivial=True)
             chk.count("kde_float.calls")
             if not math.isfinite(v) or abs(v - ref) > TOL * max(1.0, abs(ref)):
